@@ -147,6 +147,39 @@ Proof.
   apply level_pairs_valid_pairs_at.
 Qed.
 
+(* a pair of the dictionary the generated definitions compute for a level is answered by the level model's [partner]
+   (get_other_pair) as long as its removed hash is unused: "a pair the code could not have used is treated as absent" never
+   applies to what the source computes *)
+Theorem g_selected_pair_is_consulted :
+  forall (H : pystr -> pystr) c rep (D : Type) (dltb deqb : D -> D -> bool) xs ys p1 loop (dist : pystr -> pystr -> D) cutoff cut maxp passes n1 n2,
+  let adds := hashes_added H c rep xs ys in
+  let rems := hashes_removed H c rep xs ys in
+  let hp := oracle_of_dict pystr pystr_eqb adds
+              (fst (g__diff_iterable_with_deephash_pairs pystr D pystr_eqb dltb deqb loop dist cutoff cut maxp passes n1 n2 adds rems)) in
+  forall pairs a r remaining, pairs p1 = idx_pairs (h1 H c rep xs) (h2 H c rep ys) hp -> In (a, r) hp -> In r remaining ->
+  partner H c rep pairs xs ys p1 a remaining = Some r.
+Proof.
+  intros H c rep D dltb deqb xs ys p1 loop dist cutoff cut maxp passes n1 n2 adds rems hp.
+  assert (M : NoDup (map fst hp) /\ forall a r, In (a, r) hp -> In a adds /\ In r rems).
+  { unfold hp. rewrite g__diff_iterable_with_deephash_pairs_eq by exact pystr_eqb_spec'.
+    destruct (level_pairs_cases pystr D pystr_eqb dltb deqb loop dist cutoff cut maxp passes n1 n2 adds rems) as [E|E]; rewrite E.
+    - assert (E0 : forall l, oracle_of_dict pystr pystr_eqb l [] = []).
+      { unfold oracle_of_dict. induction l as [|a l IH]; [reflexivity|exact IH]. }
+      rewrite E0. split; [constructor|intros a r []].
+    - rewrite (select_disjoint pystr D pystr_eqb dltb deqb pystr_eqb_spec' cutoff loop dist adds rems (added_removed_disjoint H c rep xs ys)).
+      cbv zeta.
+      destruct (select_raw_matching pystr D pystr_eqb dltb deqb pystr_eqb_spec' cutoff (trips pystr D loop dist adds rems)) as (Nk & Nv & He).
+      cbv zeta in Nk, Nv, He.
+      set (raw := select_raw pystr D pystr_eqb dltb deqb cutoff (trips pystr D loop dist adds rems)) in *.
+      assert (Hk : forall k x, In (k, x) raw -> In k adds /\ In x rems).
+      { intros k x X. destruct (He k x X) as [d [Ht _]]. apply trips_In in Ht as (X1 & X2 & _). auto. }
+      destruct (oracle_of_dict_matching pystr pystr_eqb pystr_eqb_spec' adds rems raw (hashes_added_NoDup H c rep xs ys) Nv Hk
+                  (added_removed_disjoint H c rep xs ys)) as (N1 & _ & Hin).
+      cbv zeta in N1, Hin. split; [exact N1|]. intros a r X. apply Hk. apply Hin. exact X. }
+  destruct M as [Nk Hin]. intros pairs a r remaining Hp Har Hrem.
+  exact (partner_of_matching H c rep xs ys p1 hp Nk Hin pairs a r remaining Hp Har Hrem).
+Qed.
+
 (* the pairing oracle of a whole run computed by the generated definitions: [lx p], [ly p] = the items of the level at path p,
    [dist p], [loop p] = its distance table and loop oracle, [passes p] = the pass counter when the level is reached (all arbitrary) *)
 Definition g_pairs_oracle (H : pystr -> pystr) c rep (D : Type) (dltb deqb : D -> D -> bool)
@@ -213,5 +246,5 @@ Proof. intros. apply C05_knob_independence; assumption. Qed.
 
 Print Assumptions g_pairs_is_matching.
 Definition all_transfer := (g_pairs_valid_pairs_at, g__diff_iterable_with_deephash_pairs_eq, g_pairing_off_no_pairs, g_level_pairs_valid_pairs_at,
-  g_pairs_oracle_valid, g_pairs_oracle_off, g_C05_verdict_partial, g_C05_different_hash_nonempty, g_C05_knob_independence).
+  g_selected_pair_is_consulted, g_pairs_oracle_valid, g_pairs_oracle_off, g_C05_verdict_partial, g_C05_different_hash_nonempty, g_C05_knob_independence).
 Print Assumptions all_transfer.
